@@ -1079,6 +1079,31 @@ class SubsFamily(ReorgFamily):
                                  at=round(rng.uniform(0, 3), 3), seed=rng.getrandbits(32)))
                 plan.append(dict(op='settle'))
                 continue
+            if rng.random() < 0.12:
+                # motif: blocks that touch no script hash at all (nothing but a coinbase paying a data carrier),
+                # alone and followed by mempool arrivals: tip and later statuses must still reach the subscribers
+                for _ in range(rng.randint(1, 3)):
+                    plan.append(dict(op='mine', n=rng.randint(1, 2), burn=True, seed=rng.getrandbits(32),
+                                     at=round(rng.uniform(0.0, 6.0), 2)))
+                    if rng.random() < 0.5:
+                        plan.append(dict(op='mp_add', n=rng.randint(1, 3), chain=0.0, seed=rng.getrandbits(32),
+                                         at=round(rng.uniform(0.0, 12.0), 2)))
+                    plan.append(dict(op='wait', dt=rng.choice([8.0, 20.0])))
+                plan.append(dict(op='settle'))
+                continue
+            if rng.random() < 0.12:
+                # motif: every client leaves, the chain and the mempool move while the server has no session,
+                # clients come back and subscribe again
+                plan.append(dict(op='c_disconnect_all'))
+                plan.append(dict(op='wait', dt=rng.choice([0.5, 2.0])))
+                plan.extend(self.chain_ops(rng, k, 3.0))
+                plan.append(dict(op='wait', dt=rng.choice([15.0, 30.0])))
+                for c in range(nclients):
+                    plan.append(dict(op='c_hsub', c=c))
+                    for _ in range(rng.randint(1, 3)):
+                        plan.append(dict(op='c_sub', c=c, s=self.pick_s(rng, k)))
+                plan.append(dict(op='settle'))
+                continue
             if rng.random() < 0.15:
                 # motif: the header read at the start of a notification round is slow, and a client that was not
                 # connected before connects and subscribes while it is under way
